@@ -270,4 +270,56 @@ def fromBytesNormal (bytes : List Nat) : Option Image :=
     | some ts => some { hdr := hdr, hcrc := hcrc, comment := none, tracks := ts }
     | none => none
 
+/-- `str::is_char_boundary(n)` on the UTF-8 bytes, `n ≤ len`: the end, or a byte that is not a continuation byte `10xxxxxx` -/
+def isBoundary (t : List Nat) (n : Nat) : Bool :=
+  match t[n]? with
+  | none => true
+  | some b => (b &&& 0xC0) != 0x80
+
+/-- `let mut end = limit; while !notes.is_char_boundary(end) { end -= 1 }` (index 0 is always a boundary) -/
+def clipEnd (t : List Nat) : Nat → Nat
+  | 0 => 0
+  | n + 1 => if isBoundary t (n + 1) then n + 1 else clipEnd t n
+
+/-- the repaired `from_bytes`: notes that do not fit the 16-bit length field are cut at a character boundary -/
+def clipNotes (limit : Nat) (t : List Nat) : List Nat :=
+  if t.length > limit then t.take (clipEnd t limit) else t
+
+/-- `Td0::from_bytes` of a stream ANOTHER program wrote: the comment bytes go through `String::from_utf8_lossy` first (an
+external function: parameter `lossy`, bytes ↦ UTF-8 bytes of the resulting string; the identity on valid UTF-8), then NUL → LF,
+then `normalize_notes`.  The notes in memory can be longer (U+FFFD for a code-page byte) or shorter (`\r\0` folded into one
+line end) than the comment in the file; the length field of the header object keeps the FILE's value until `to_bytes`.
+`fix` = the tree has proposed_fixes/c09-td0-notes-length-limit.diff (notes longer than 65535 bytes are cut; probed by the harness). -/
+def fromBytesNormalD (lossy : List Nat → List Nat) (fix : Bool) (bytes : List Nat) : Option Image :=
+  if bytes.length < 12 then none else
+  if bytes.take 2 ≠ [84, 68] then none else
+  let h10 := bytes.take 10
+  let hcrc := (bytes.drop 10).take 2
+  if hcrc ≠ le16 (crc16 0 h10) then none else
+  let hdr := h10.drop 2
+  let stepping := hdr.getD 5 0
+  let r := bytes.drop 12
+  if stepping &&& COMMENT_MASK > 0 then
+    match r with
+    | c0 :: c1 :: l0 :: l1 :: r2 =>
+      if r2.length < 6 then none else
+      let stamp := r2.take 6
+      let len := unle16 l0 l1
+      let r3 := r2.drop 6
+      if r3.length < len then none else
+      let raw := r3.take len
+      if [c0, c1] ≠ le16 (crc16 0 ([l0, l1] ++ stamp ++ raw)) then none else
+      let notes := decodeText (lossy raw)
+      let notes := if fix then clipNotes 65535 notes else notes
+      match readTracks bytes.length (r3.drop len) with
+      | some [] => none
+      | some ts => some { hdr := hdr, hcrc := hcrc, comment := some { crc := [c0, c1], len := [l0, l1], stamp := stamp, text := notes }, tracks := ts }
+      | none => none
+    | _ => none
+  else
+    match readTracks bytes.length r with
+    | some [] => none
+    | some ts => some { hdr := hdr, hcrc := hcrc, comment := none, tracks := ts }
+    | none => none
+
 end A2Verif.Model.C09Td0
